@@ -150,9 +150,25 @@ class RunningFailureMonitor(Monitor):
             self.count('lost_processes', sum(len(v) for v in lost.values()))
             self.count('losses_merged')
             return
+        # the processes that have a stop command (requested or still planned) towards the lost instance in the Stopper
+        # of the Master: they are left to that job; a restart queued behind the stop (restart_application /
+        # restart_process) is part of that job
+        stop_planned, restart_pending = {}, set()
+        try:
+            stopper = inst.supvisors.stopper
+            jobs = list(stopper.current_jobs.values()) + [j for seq in stopper.planned_jobs.values()
+                                                          for j in seq.values()]
+            for job in jobs:
+                for command in list(job.current_jobs) + [c for group in job.planned_jobs.values() for c in group]:
+                    if command.identifier == identifier:
+                        stop_planned.setdefault(job.application_name, set()).add(command.process.namespec)
+            restart_pending = set(stopper.application_start_requests) | set(stopper.process_start_requests)
+        except Exception:
+            stop_planned = {}
         record = {'t': w.now, 'master': inst.nick, 'inc': inst.inc, 'lost_instance': w.by_identifier.get(identifier),
                   'state': state, 'lost': lost, 'busy_apps': sorted(busy_apps | ambiguous), 'survivors': survivors,
-                  'busy_anything': bool(busy_apps)}
+                  'busy_anything': bool(busy_apps), 'stop_planned': stop_planned,
+                  'restart_pending': sorted(restart_pending)}
         self.losses.append(record)
         self.count('losses_acknowledged_by_master')
         if busy_apps:
@@ -264,6 +280,7 @@ class RunningFailureMonitor(Monitor):
                 continue
             if w.now - record['t'] < 3 * TICK:
                 continue
+            self.check_left_to_stop_job(run, record)
             for app, names in record['lost'].items():
                 if app in record['busy_apps']:
                     self.count('lost_in_application_with_jobs')
@@ -340,6 +357,35 @@ class RunningFailureMonitor(Monitor):
         for crash in self.crashes:
             self.evaluate_crash(run, crash, vws)
         return self.violations
+
+    def check_left_to_stop_job(self, run, record):
+        """ A process that had a stop job planned when its instance was lost is left to that job: the Master starts
+        neither the process nor its application again on its own. """
+        nick, inc, t = record['master'], record['inc'], record['t']
+        if record is not self.losses[-1]:
+            return
+        for app, names in record.get('stop_planned', {}).items():
+            if app in record['restart_pending'] or self.crashed_since(app, t - TICK):
+                continue
+            user = [a for a in run.actions if a['vt'] + 1_700_000_000.0 >= t - TICK and
+                    a['kind'] in ('start_application', 'restart_application', 'start_process', 'restart_process',
+                                  'restart_sequence', 'restart', 'crash')]
+            if user:
+                continue
+            for namespec in sorted(names):
+                if namespec not in run.procs:
+                    continue
+                self.count('lost_processes_with_a_stop_job_checked')
+                starts = [p for p in self.plans_of(nick, inc, 'start_process', namespec, t) +
+                          self.plans_of(nick, inc, 'start_application', app, t) if p[0] <= t + 12 * TICK]
+                if starts:
+                    self.violate('C06/failure-handled-although-a-stop-job-was-planned',
+                                 f"instance {record['lost_instance']} lost, acknowledged by the Master {nick} at "
+                                 f"vt={round(t - 1_700_000_000.0, 3)} while its Stopper had a stop command for "
+                                 f"{namespec} there (strategy "
+                                 f"{run.prog_of(namespec)[1].get('running_failure_eff', 'CONTINUE')}): the Master then "
+                                 f"planned {[(round(p[0] - 1_700_000_000.0, 3), p[3], p[4]) for p in starts]}",
+                                 case=run.describe())
 
     def crashed_since(self, app, t):
         return any(c['namespec'].split(':')[0] == app and c['t'] >= t for c in self.crashes) or \
